@@ -63,7 +63,8 @@ def expected(docs, est, cfg):
 def _mk(cfg, inp):
     kw = dict(window_radii=cfg["radii"] if len(cfg["radii"]) > 1 else cfg["radii"][0],
               window_orientations=cfg["orientations"] if len(cfg["orientations"]) > 1 else cfg["orientations"][0],
-              kernel_functions=cfg["kernel"], normalize_windows=cfg["normalize_windows"],
+              kernel_functions=cfg["kernel"] if len(cfg["radii"]) == 1 else [cfg["kernel"]] * len(cfg["radii"]),
+              window_functions="fixed" if len(cfg["radii"]) == 1 else ["fixed"] * len(cfg["radii"]), normalize_windows=cfg["normalize_windows"],
               n_threads=cfg.get("n_threads", 1), coo_initial_memory=cfg.get("mem", "0.5 GiB"))
     if cfg.get("mask") is not None:
         kw["mask_string"] = cfg["mask"]
